@@ -412,6 +412,9 @@ class AhocorasickTokenizer(Tokenizer):
     the target text contains one of the strings from
     TokenExtractor.strings."""
 
+    # "İ", "ı" and "ſ"
+    NON_ASCII_CASE_VARIANTS = {0x130: "i", 0x131: "i", 0x17F: "s"}
+
     def __post_init__(self):
         """Set up helpers to narrow down possible extractors."""
         # Build a set of all extractors that don't list required strings
@@ -439,7 +442,10 @@ class AhocorasickTokenizer(Tokenizer):
         unique_extractors = set(self.unfiltered_extractors)
         for _, extractors in self.case_sensitive_filter.iter(text):
             unique_extractors.update(extractors)
-        for _, extractors in self.case_insensitive_filter.iter(text.lower()):
+        # re.IGNORECASE also equates these letters with ASCII "i" and "s", but
+        # str.lower() does not map them to ASCII
+        folded = text.translate(self.NON_ASCII_CASE_VARIANTS).lower()
+        for _, extractors in self.case_insensitive_filter.iter(folded):
             unique_extractors.update(extractors)
         return unique_extractors
 
